@@ -48,7 +48,7 @@ func (g *Gen) tplCoroutines() []L.Stmt {
 	// closures over the coroutines' own locals are collected here and called by the driver while their coroutine is
 	// suspended, running another one, and after it has finished or failed
 	fns := "fns" + id
-	out = append(out, local1(fns, tbl()))
+	out = append(out, local1(fns, tbl()), local1("esc"+id, tbl()))
 	stash := func(f L.Expr) L.Stmt { return assign1(idx(name(fns), bin("+", un("#", name(fns)), num(1))), f) }
 	useFns := func(tag string) L.Stmt {
 		return &L.NumForStmt{Var: "fi", Start: num(1), End: un("#", name(fns)), Body: blk(emit(str(tag), name("fi"), call(idx(name(fns), name("fi")))))}
@@ -107,7 +107,7 @@ func (g *Gen) tplCoroutines() []L.Stmt {
 					g.class("co:error_in_body")
 				}
 			case 8, 9:
-				body = append(body, g.innerCoroutine(cn, 1+g.n(3, "innerdepth"))...)
+				body = append(body, g.innerCoroutine(cn, 1+g.n(3, "innerdepth"), "esc"+id)...)
 			default:
 				// a closure over a coroutine local, handed out through yield
 				body = append(body, emit(str(cn+" after closure"), co("yield", fn(nil, false, blk(assign1(name("loc"), bin("+", name("loc"), num(1))), ret(name("loc")))))))
@@ -139,6 +139,9 @@ func (g *Gen) tplCoroutines() []L.Stmt {
 		}
 	}
 	out = append(out, useFns("closure after drive"))
+	for pass := 0; pass < 2; pass++ {
+		out = append(out, &L.NumForStmt{Var: "ei", Start: num(1), End: un("#", name("esc"+id)), Body: blk(emit(str("escaped inner coroutine"), name("ei"), call(idx(name("esc"+id), name("ei")), str("late"), num(float64(pass)))))})
+	}
 	// closures handed out by coroutines keep working whatever state the coroutine is in (values arrive through emit only;
 	// calling them is done by a fixed epilogue when one was yielded: the driver keeps the last function it received)
 	g.class("co:ncoroutines" + strconv.Itoa(nco))
@@ -147,7 +150,7 @@ func (g *Gen) tplCoroutines() []L.Stmt {
 
 // innerCoroutine: a coroutine created by a coroutine (depth levels deep).  The inner one yields some values, then
 // returns, fails or is abandoned while suspended; its creator goes on afterwards and must be unaffected.
-func (g *Gen) innerCoroutine(cn string, depth int) []L.Stmt {
+func (g *Gen) innerCoroutine(cn string, depth int, esc string) []L.Stmt {
 	g.class("co:created_inside_coroutine")
 	g.class("co:creation_depth" + strconv.Itoa(depth+1))
 	tag := cn + " inner" + strconv.Itoa(depth)
@@ -158,7 +161,7 @@ func (g *Gen) innerCoroutine(cn string, depth int) []L.Stmt {
 		body = append(body, emit(str(tag+" resumed with"), co("yield", g.payload("iy")...)))
 	}
 	if depth > 1 {
-		body = append(body, g.innerCoroutine(cn, depth-1)...)
+		body = append(body, g.innerCoroutine(cn, depth-1, esc)...)
 	}
 	end := g.n(4, "innerend")
 	switch end {
@@ -187,6 +190,17 @@ func (g *Gen) innerCoroutine(cn string, depth int) []L.Stmt {
 		for i := 0; i < nr; i++ {
 			out = append(out, emit(str(tag+" resume"), co("resume", append([]L.Expr{name("ic")}, g.payload("ip")...)...), co("status", name("ic"))))
 		}
+	}
+	if g.n(2, "innerescapes") == 0 {
+		// the inner coroutine outlives its creator: the main thread goes on resuming it after the drive
+		g.class("co:inner_escapes_its_creator")
+		var again L.Expr
+		if _, isWrap := out[0].(*L.LocalStmt); isWrap && out[0].(*L.LocalStmt).Names[0] == "iw" {
+			again = fn(nil, true, blk(ret(call(name("pcall"), name("iw"), &L.VarargExpr{}))))
+		} else {
+			again = fn(nil, true, blk(ret(co("resume", name("ic"), &L.VarargExpr{}))))
+		}
+		out = append(out, assign1(idx(name(esc), bin("+", un("#", name(esc)), num(1))), again))
 	}
 	out = append(out, emit(str(cn+" goes on after inner"), name("loc")))
 	return []L.Stmt{&L.DoStmt{Body: blk(out...)}}
